@@ -77,6 +77,8 @@ def scan(tr):
                 st["partial_writes"] = st.get("partial_writes", 0) + 1
             if again:
                 st["eagain_writes"] = st.get("eagain_writes", 0) + 1
+                if not insend:
+                    st["eagain_inside_write_callback"] = st.get("eagain_inside_write_callback", 0) + 1
             if ret < 0 and not again:
                 st["failed_writes_peer_gone"] = st.get("failed_writes_peer_gone", 0) + 1
         elif line.startswith('{"e":"Send"'):
@@ -304,9 +306,26 @@ def bind_exec(rnd, transport, buf):
     return {"t": transport, "thr": thr, "buf": buf, "ops": finish(ops, tcp, enable=False)}
 
 
+def eagain_exec(rnd, transport, buf):
+    """EAGAIN inside the write-event callback: the descriptor is reported readable and writable in one pass (a finished
+    small send waits for its send-complete, the peer has written); the receive callback sends a block larger than the free
+    kernel buffer (direct partial write fills it, the rest is queued); the write callback of the same pass finds it full"""
+    tcp = transport.startswith("tcp")
+    big = rnd.randint(5000000, 8000000) if tcp else rnd.randint(70000, 400000)
+    ops = [] if tcp else [{"o": "enable"}]
+    for _ in range(rnd.randint(1, 2)):
+        ops += [{"o": "send", "n": rnd.randint(1, 100)}, {"o": "pwrite", "n": rnd.randint(1, 100)},
+                {"o": "pass", "c": -1, "w": "recv", "in": [{"o": "send", "n": big}]},
+                {"o": "pass", "c": -1}, {"o": "pread", "n": rnd.randint(1, big)}, {"o": "pass", "c": -1},
+                {"o": "send", "n": rnd.randint(1, 5000)}, {"o": "settle"}]
+    return {"t": transport, "thr": 0, "buf": buf, "ops": finish(ops, tcp)}
+
+
 def rand_exec(rnd, transport, buf, big):
     """seeded random long script: sizes from 1 byte to several MB, all pacings, close at any point"""
     q = rnd.random()
+    if q > 0.95:
+        return eagain_exec(rnd, transport, buf)
     if q < 0.2:
         return stream_exec(rnd, transport, buf)
     if q < 0.3 and transport not in ("tcps4", "tcpsu"):
@@ -595,7 +614,7 @@ def binding(ctx, exe, quick, rnd):
                   "send_complete_notifications", "sends_inside_send_complete_callback",
                   "partial_sends_inside_send_complete_after_backlog", "peer_aborts",
                   "read_error_right_after_data_in_one_wakeup", "peer_saw_eof_after_local_close",
-                  "local_disconnects_with_over_100KB_in_flight", "shrink_send_buffer_with_backlog",
+                  "local_disconnects_with_over_100KB_in_flight", "shrink_send_buffer_with_backlog", "eagain_inside_write_callback",
                   "shrink_recv_buffer_with_unconsumed", "forwards_including_bytes_left_by_the_callback"):
             if STATS.get(k, 0) == 0:
                 raise vlib.Infra("vacuity guard: no recorded execution reached '%s'" % k)
